@@ -73,9 +73,16 @@ func (d *DebugDialer) Dial(ctx context.Context, urlstr string) (conn net.Conn, b
 		// We must split response inside buffered bytes from other received
 		// bytes from server.
 		p := resBuf.Bytes()
-		n := bytes.Index(p, headEnd)
-		h := n + len(headEnd)         // Head end index.
-		n = h + int(resContentLength) // Body end index.
+		h := headEndIndex(p) // Head end index.
+		if h == -1 {
+			// Response head was not received completely (e.g. dial or
+			// handshake has failed early): report what we have got.
+			h = len(p)
+		}
+		n := h + int(resContentLength) // Body end index.
+		if n > len(p) {
+			n = len(p)
+		}
 
 		onResponse(p[:n])
 
@@ -118,7 +125,23 @@ func (rwc rwConn) Write(p []byte) (int, error) {
 	return rwc.w.Write(p)
 }
 
-var headEnd = []byte("\r\n\r\n")
+// headEndIndex returns the index of the first byte after the blank line that
+// terminates the HTTP head in p. Like the handshake parser it accepts both
+// "\r\n" and "\n" line ends. It returns -1 if p holds no complete head.
+func headEndIndex(p []byte) int {
+	for i := 0; i < len(p); i++ {
+		if p[i] != '\n' {
+			continue
+		}
+		if i+1 < len(p) && p[i+1] == '\n' {
+			return i + 2
+		}
+		if i+2 < len(p) && p[i+1] == '\r' && p[i+2] == '\n' {
+			return i + 3
+		}
+	}
+	return -1
+}
 
 type prefetchResponseReader struct {
 	source io.Reader // Original connection source.
